@@ -52,7 +52,12 @@ def prove_run(ctx, want, forge):
                    + ("forged traces: consistent re-execution with a substituted constant / hint output, single ALU or Const cell edits; "
                       "accepted forgeries judged by an independent sat check; " if forge else "")
                    + "distinct = distinct program texts proved",
-           "samples": rep["samples"], "input_distribution": rep["hist"]}
+           "samples": rep["samples"], "input_distribution": rep["hist"],
+           "explanation": "the Lean models these theorems speak about are tied to the code by the correspondence runs of C09 (roles / multiplicities: "
+                          "Model/Roles), C11 (row constraints, interactions and the Horner schedule: Model/AluAir, Model/AluSchedule) and C02 (runner: "
+                          "Model/Runner); this check adds the end-to-end oracle on the real prover and verifier"
+                          + ("; forgery modes: constant substitution, single ALU / Const cell edits, hint-output substitution, and the table's own "
+                             "reading of HornerAcc steps (accumulator from the previous row) replayed against the op relation (finding F20)" if forge else "")}
     return violations, cov
 
 
